@@ -214,6 +214,10 @@ pub struct C10Plan {
     /// the connection task stays subject to tokio's cooperative budget
     #[serde(default)]
     pub coop: bool,
+    /// a Connect travels right behind the message that is not a frame (it has arrived when the
+    /// connection ends and is looked at during the wind-down)
+    #[serde(default)]
+    pub connect_behind_garbage: bool,
 }
 
 const ID_BYS: u32 = 0xb0;
@@ -566,6 +570,9 @@ async fn run_c10_async(plan: C10Plan, sched: Sched, record: bool) -> Outcome {
             if let Some(k) = plan2.garbage {
                 *ga.borrow_mut() = Some(seq.now());
                 raw.borrow_mut().send_bytes(crate::duo::garbage_bytes(k));
+                if plan2.connect_behind_garbage {
+                    raw.borrow_mut().send(RFrame::Connect { id: 0x0f20_0000, rwnd: 2, port: 1, host: b"late".to_vec() });
+                }
                 if plan2.silent_after_garbage {
                     // (only once the endpoint has taken the message: a silence that swallows it
                     // ends nothing)
@@ -608,7 +615,8 @@ async fn run_c10_async(plan: C10Plan, sched: Sched, record: bool) -> Outcome {
                 o.violate("C10:garbage-wrong-error", format!("a message that is not a valid frame ended the connection with {r}, not an invalid-frame error"));
             }
             // every pending operation observes the end
-            if accept_end.borrow().is_none() {
+            // (in the connect-burst family the application has stopped calling accept_stream_channel)
+            if accept_end.borrow().is_none() && plan.flood == 0 {
                 o.violate("C10:pending-after-garbage", "accept_stream_channel still pending after the connection ended with an invalid frame".into());
             }
             if dg_end.borrow().is_none() {
